@@ -352,8 +352,8 @@ def run_squash(case):
 
 
 def legs(tier):
-    a = Leg('d2s', d2s_case(), run_d2s, 6000, 240000)
-    b = Leg('squash', squash_case(), run_squash, 6000, 240000)
+    a = Leg('d2s', d2s_case(), run_d2s, 15000, 240000)
+    b = Leg('squash', squash_case(), run_squash, 15000, 240000)
     return [a, b]
 
 
